@@ -71,7 +71,8 @@ CLAIMS.update({
     "C18": ("symbolic layout agreement + provenance + parallel-loop discipline",
             "LAYOUT L4 for gwb-grid (output offsets -> data_set slots, dataSetInfo, filter_vtu_mesh literals), same-index node "
             "provenance, PAR on the parallel callables and the pool, structure of the mesh filter (both per-cell loops cover all vertices), "
-            "base64 length of appended blocks = 4*ceil(n/3) (proof over residues). Grid generation itself is not decided",
+            "base64 length of appended blocks = 4*ceil(n/3) (proof over residues), Cartesian grid: node positions and VTK cell "
+            "connectivity as closed forms of the loop indices. The chunk/annulus/sphere generators are decided only for their depth field",
             "§3.2, §3.11, §4 C18"),
 })
 
